@@ -58,6 +58,24 @@ theorem source_two_partitions_agree (fs c1 c2 : List Bytes) (hv : ∀ f ∈ fs, 
   obtain ⟨m2, p2, b1, _, b3, _⟩ := source_unpack_any_chunking fs c2 hv h2 fuel (by rw [h2]; exact hfuel)
   exact ⟨m1, m2, p1, p2, a1, b1, a3, b3⟩
 
+/-- **Exactly when the closing delimiter has arrived, on the translated source.** After reads that bring any part of the
+stream (`later` still in flight), the translated `unpack` has reported no error, holds an open remainder `pre` (no closing
+delimiter in it) and has delivered exactly the `K` frames that are complete within the bytes received. -/
+theorem source_delivered_exactly_when_closed (fs chunks : List Bytes) (later : Bytes) (hv : ∀ f ∈ fs, ValidFrame f)
+    (hc : chunks.flatten ++ later = fs.flatten) (fuel : Nat) (hfuel : chunks.flatten.length + 2 < fuel) :
+    ∃ K pre mss p, runGo fuel service_packageParse.zero chunks = X.ok (mss, false, p) ∧
+      chunks.flatten = (fs.take K).flatten ++ pre ∧ Open pre ∧ p.historyData = pre ∧
+      All2 RepM mss.flatten ((fs.take K).map msgOf) := by
+  obtain ⟨mss, e, p, h1, h2, h3, h4⟩ := Gen.GoParse.run_go fuel chunks service_packageParse.zero
+    (by simp only [service_packageParse.zero, List.length_nil]; omega)
+  obtain ⟨K, pre, m1, m2, m3, m4, m5⟩ := delivered_exactly_when_closed fs chunks later hv hc
+  simp only [service_packageParse.zero] at h2 h3 h4
+  refine ⟨K, pre, mss, p, ?_, m1, m2, ?_, ?_⟩
+  · rw [h1, h3, m3]
+  · rw [h4, m4]
+  · have := Gen.GoParse.All2.flatten h2
+    rw [m5] at this; exact this
+
 /-- Non-vacuity: the translated splitter, run on a concrete heartbeat frame cut into three reads, delivers one message. -/
 example : (match runGo 40 service_packageParse.zero
       [[0x7e, 0x00, 0x02, 0x00], [0x00, 0x01, 0x23, 0x45, 0x67, 0x89, 0x01], [0x7f, 0xff, 0x0a, 0x7e]] with
